@@ -220,6 +220,33 @@ def optSpec {α} (o : Option α) (rest : List String) : Spec α :=
   | some a => .val a rest
   | none => .bad
 
+/-- a container taken from a decoded PDU: `P<hex>` = response bytes, `Q<hex>` = request bytes -/
+def srcCoils (s : String) : Option (Option Coils) :=
+  match s.toList with
+  | 'P' :: h => (parseHexChars h []).map fun b => match Response.decode b with
+      | .ok (.readCoils c) | .ok (.readDiscreteInputs c) => some c
+      | _ => none
+  | 'Q' :: h => (parseHexChars h []).map fun b => match Request.decode b with
+      | .ok (.writeMultipleCoils _ c) => some c
+      | _ => none
+  | _ => none
+
+def srcData (s : String) : Option (Option Data) :=
+  match s.toList with
+  | 'P' :: h => (parseHexChars h []).map fun b => match Response.decode b with
+      | .ok (.readHoldingRegisters d) | .ok (.readInputRegisters d) | .ok (.readWriteMultipleRegisters d) => some d
+      | _ => none
+  | 'Q' :: h => (parseHexChars h []).map fun b => match Request.decode b with
+      | .ok (.writeMultipleRegisters _ d) | .ok (.readWriteMultipleRegisters _ _ _ d) => some d
+      | _ => none
+  | _ => none
+
+def liftS {α β} (o : Option (Option α)) (k : α → β) (rest : List String) : Spec β :=
+  match o with
+  | none => .bad
+  | some (some a) => .val (k a) rest
+  | some none => .specErr
+
 def reqSpec : List String → Spec Request
   | "RC" :: a :: q :: r => optSpec (do pure (.readCoils (← parseU16 a) (← parseU16 q))) r
   | "RDI" :: a :: q :: r => optSpec (do pure (.readDiscreteInputs (← parseU16 a) (← parseU16 q))) r
@@ -268,6 +295,18 @@ def reqSpec : List String → Spec Request
         .val (.readWriteMultipleRegisters ra rq wa d) r
       | _ => .specErr
     | _, _, _, _ => .bad
+  | "WMCS" :: a :: src :: r =>
+    match parseU16 a with
+    | some a => liftS (srcCoils src) (Request.writeMultipleCoils a) r
+    | none => .bad
+  | "WMRS" :: a :: src :: r =>
+    match parseU16 a with
+    | some a => liftS (srcData src) (Request.writeMultipleRegisters a) r
+    | none => .bad
+  | "RWMS" :: ra :: rq :: wa :: src :: r =>
+    match parseU16 ra, parseU16 rq, parseU16 wa with
+    | some ra, some rq, some wa => liftS (srcData src) (Request.readWriteMultipleRegisters ra rq wa) r
+    | _, _, _ => .bad
   | _ => .bad
 
 def rspSpec : List String → Spec Response
@@ -293,6 +332,11 @@ def rspSpec : List String → Spec Response
       | .ok v => .val v r
       | _ => .specErr
     | none => .bad
+  | "RCS" :: src :: r => liftS (srcCoils src) Response.readCoils r
+  | "RDIS" :: src :: r => liftS (srcCoils src) Response.readDiscreteInputs r
+  | "RIRS" :: src :: r => liftS (srcData src) Response.readInputRegisters r
+  | "RHRS" :: src :: r => liftS (srcData src) Response.readHoldingRegisters r
+  | "RWMS" :: src :: r => liftS (srcData src) Response.readWriteMultipleRegisters r
   | _ => .bad
 
 def excSpec : List String → Spec ExceptionResponse
